@@ -207,6 +207,34 @@ func (vm *VM) SelfTest(maxLen int) (int, []string) {
 				fail("strings.Replace", s, got, strings.Replace(s, ".", "", -1))
 			}
 		})
+		// Index / IndexByte / Contains / HasPrefix / HasSuffix with a concrete pattern
+		for _, pat := range []string{".", "%", "/", "1.", " /", "0"} {
+			pat := pat
+			run(s, func(sv Value, m map[string]*big.Int) {
+				n++
+				if got := vm.intrinsics["strings.Index"](vm, nil, []Value{sv, pat}); got != int64(strings.Index(s, pat)) {
+					fail("strings.Index "+pat, s, fmt.Sprint(got), fmt.Sprint(strings.Index(s, pat)))
+				}
+			})
+			run(s, func(sv Value, m map[string]*big.Int) {
+				n++
+				if got := vm.intrinsics["strings.Contains"](vm, nil, []Value{sv, pat}); got != strings.Contains(s, pat) {
+					fail("strings.Contains "+pat, s, fmt.Sprint(got), fmt.Sprint(strings.Contains(s, pat)))
+				}
+				if got := vm.intrinsics["strings.HasPrefix"](vm, nil, []Value{sv, pat}); got != strings.HasPrefix(s, pat) {
+					fail("strings.HasPrefix "+pat, s, fmt.Sprint(got), fmt.Sprint(strings.HasPrefix(s, pat)))
+				}
+				if got := vm.intrinsics["strings.HasSuffix"](vm, nil, []Value{sv, pat}); got != strings.HasSuffix(s, pat) {
+					fail("strings.HasSuffix "+pat, s, fmt.Sprint(got), fmt.Sprint(strings.HasSuffix(s, pat)))
+				}
+			})
+		}
+		run(s, func(sv Value, m map[string]*big.Int) {
+			n++
+			if got := vm.intrinsics["strings.IndexByte"](vm, nil, []Value{sv, int64('.')}); got != int64(strings.IndexByte(s, '.')) {
+				fail("strings.IndexByte", s, fmt.Sprint(got), fmt.Sprint(strings.IndexByte(s, '.')))
+			}
+		})
 	}
 	// encoding/json string encoding
 	jalpha := []byte{'a', '"', '\\', '<', '&', '\n', 0x01, 0x7f, 0xc3, 0xa9, 0xff, '\b', '\f', 0xe2, 0x80, 0xa8, '>', '\t', 0x1f, ' '}
